@@ -105,8 +105,8 @@ Location locate_hunk(const std::vector<Line>& content, const Hunk& hunk, bool ig
     if (hunk.old_file_range.number_of_lines == 0) {
         if (hunk.old_file_range.start_line == 0 && !content.empty())
             return {};
-        // An insertion can not go before lines which have already been consumed by an earlier hunk.
-        if (offset_guess < min_line)
+        // An insertion can only go somewhere between the lines already consumed and the end of the file.
+        if (offset_guess < min_line || static_cast<size_t>(offset_guess) > content.size())
             return {};
         return { offset_guess, 0, 0 };
     }
@@ -130,6 +130,10 @@ Location locate_hunk(const std::vector<Line>& content, const Hunk& hunk, bool ig
     // Only context lines may be ignored by fuzz, never lines which are added or removed.
     max_fuzz = std::min(max_fuzz, context);
 
+    const auto old_line_count = static_cast<size_t>(std::count_if(hunk.lines.begin(), hunk.lines.end(), [](const PatchLine& line) {
+        return line.operation != '+';
+    }));
+
     for (LineNumber fuzz = 0; fuzz <= max_fuzz; ++fuzz) {
 
         auto suffix_fuzz = std::max<LineNumber>(fuzz + patch_suffix_content - context, 0);
@@ -142,6 +146,10 @@ Location locate_hunk(const std::vector<Line>& content, const Hunk& hunk, bool ig
             return {};
 
         auto hunk_matches_starting_from_line = [&](LineNumber line) {
+            // All of the old lines of the hunk (including any which fuzz is ignoring) must fit inside of the file.
+            if (static_cast<size_t>(line) + old_line_count > content.size())
+                return false;
+
             line += prefix_fuzz;
 
             // Ensure that all of the lines in the hunk match starting from 'line'
